@@ -85,6 +85,9 @@ def build(G, B, r):
         if 'default' in o:
             kw['default'] = B.value(o['default'])
         return Node(k, r, getattr(G, k)(*[c.obj for c in ch], **kw), ch, extra=o)
+    if k == 'MatchLit':
+        # Match(<literal>): fails with MatchError unless the target equals the literal
+        return Node('MatchLit', r, G.Match(r[1]), [Node('lit', r, r[1])], extra=r[1])
     if k == 'Check':
         c = build(G, B, r[1])
         return Node('Check', r, G.Check(c.obj, equal_to=r[2]['equal_to']), [c], extra=r[2])
@@ -253,6 +256,12 @@ class Walker:
             if v != n.extra['equal_to']:
                 # the Check itself fails, AFTER its sub-spec was evaluated successfully
                 raise MErr('CheckError', 'failed check', True, n, t)
+            return t
+        if k == 'MatchLit':
+            return self.ev(n.children[0], t)      # (the literal is a spec level of its own, in match mode)
+        if k == 'lit':
+            if t != n.obj:
+                raise MErr('MatchError', 'does not match', True, n, t)
             return t
         if k == 'Switch':
             failed = []
